@@ -383,6 +383,23 @@ class WhileLoop(_LoopBase):
 # --------------------------------------------------------------------------- __vc__
 
 
+class Coro:
+    """The coroutine object of a transformed `async def`: the body runs when it is awaited."""
+
+    def __init__(self, fn, args, kwargs):
+        self.fn, self.args, self.kwargs = fn, args, kwargs
+        self.started = False
+
+    def run(self):
+        if self.started:
+            raise Unsupported("coroutine awaited twice")
+        self.started = True
+        return self.fn(*self.args, **self.kwargs)
+
+    def close(self):
+        self.started = True
+
+
 class StarArgs:
     """All elements of a symbolic collection, passed with `*`."""
 
@@ -699,9 +716,25 @@ class RT:
         return x
 
     # async
+    def coroutine_function(self, fn):
+        import functools
+
+        @functools.wraps(fn)
+        def make(*a, **k):
+            return Coro(fn, a, k)
+
+        make.__vc_impl__ = fn
+        return make
+
     def await_(self, x):
         c = cur()
         import inspect
+
+        if isinstance(x, Coro):
+            c.event("await")
+            if c.await_hook is not None:
+                c.await_hook()
+            return x.run()
 
         if inspect.iscoroutine(x):
             x.close()
@@ -864,6 +897,8 @@ def _dict_comp(f, q, cond):
 
 def v_len(x):
     x = sym.resolve(x)
+    if hasattr(type(x), "__symlen__"):
+        return x.__symlen__()
     if isinstance(x, (SymStr, SymBytes, SymSeq)):
         return x.sym_len()
     if isinstance(x, (SymMap, SymSet)):
